@@ -29,7 +29,8 @@ class Snapshots:
     """run fn() under sys.settrace; copy `root` aside whenever its content
     changed between two executed lines of code under `srcprefix`"""
 
-    def __init__(self, root, store, srcprefix='/repo/darr/'):
+    def __init__(self, root, store, srcprefix=None):
+        srcprefix = srcprefix or (os.path.abspath(os.environ.get('VERIF_REPO', '/repo')) + '/darr/')
         self.root, self.store, self.srcprefix = root, store, srcprefix
         self.snaps = []      # list of (where, dir copy path)
         self.last = None
